@@ -271,6 +271,13 @@ def build_cases(tier, rng):
         cases.append(Case(mk(n, es, order), 0, "cubic%d" % n, tw=True))
         o = list(range(n)); rng.shuffle(o)
         cases.append(Case(mk(n, es, o), rng.choice([0, 1, 2, 3]), "cubic%d-shuffled" % n, tw=True))
+    # dense random graphs on 9..11 vertices (treewidth 4..6, degrees >= 4) on which min_fill is not optimal in the
+    # recorded insertion order, found once by search and kept as data (corpus/C10_hard_dense.json): quickbb's
+    # branch and bound has to improve on its initial bound, through the almost-simplicial reduction and the pruning
+    hard = json.load(open(os.path.join(VERIF, "corpus", "C10_hard_dense.json")))
+    if tier == "quick": hard = [h for h in hard if h["n"] <= 10][:int(os.environ.get("VERIF_C10_HARD", "70"))]
+    for h in hard:
+        cases.append(Case(mk(h["n"], [tuple(e) for e in h["edges"]], h["order"]), 0, "dense%d" % h["n"], methods=["min_fill", "quickbb"], tw=h["n"] <= TW_MAX))
     for fn, g, tw, meths in bench_graphs():
         # methods as in /repo/test/test_factorize.py
         cases.append(Case(g, 0, "bench:" + fn, expect=tw, methods=meths, model=True, helpers=True))
